@@ -361,7 +361,13 @@ impl Emitter {
                     Node::CaptureGroup { id, contents, name } => {
                         let group = *id;
                         self.result.groups += 1;
-                        self.group_names.push(name.as_deref().unwrap_or("").into());
+                        // Record the name at the group's index: groups are not always emitted in
+                        // index order (the contents of a lookbehind are emitted reversed).
+                        let name_index = group as usize;
+                        if self.group_names.len() <= name_index {
+                            self.group_names.resize(name_index + 1, "".into());
+                        }
+                        self.group_names[name_index] = name.as_deref().unwrap_or("").into();
                         self.emit_insn(Insn::BeginCaptureGroup(group));
                         stack.push(Emitter::EndCaptureGroup { group });
                         stack.push(Emitter::Node(contents));
